@@ -236,8 +236,10 @@ def applicable(case, ref) -> list[str]:
         if kind == "array" and (t == "boolean[]" or (isinstance(t, dict) and t.get("items") == "boolean" and "inputBinding" not in t)) \
                 and "itemSeparator" not in b:
             m.append("boolarr")
-        if kind == "array" and isinstance(t, dict) and t.get("items") == "boolean" and "inputBinding" in t \
-                and "prefix" in b and "itemSeparator" not in b and not any(job[name]):
+        v = job.get(name)
+        if kind == "array" and isinstance(t, dict) and "prefix" in b and "itemSeparator" not in b and isinstance(v, list) and v and (
+                (t.get("items") == "boolean" and "inputBinding" in t and not any(v))  # bound boolean items, all false
+                or (isinstance(t.get("items"), dict) and all(x == [] for x in v))):  # nested arrays, all empty
             m.append("boolprefix")
         if kind == "array" and isinstance(t, dict) and "inputBinding" in t and "itemSeparator" in b and isinstance(t.get("items"), str):
             m.append("itemsep")
